@@ -196,6 +196,25 @@ def run_c17(run, tier, wd, binary, replay):
                         "the known-finding cells (F10) are excluded exactly as listed in known_findings.jsonl; any other differing cell is a violation"]
 
 
+def missing_phase(run, wd, binary, tag="missing"):
+    """C09: a required configuration value that is missing fails start-up with an error (no panic); an optional one leaves the zero value"""
+    import vp_lib as vl
+    bd = os.path.join(wd, tag)
+    os.makedirs(bd)
+    value_model(run, bd)
+    cases = vl.missing_cases()
+    vlib.write_ndjson(os.path.join(bd, "in.ndjson"), cases)
+    p = vlib.run_harness(binary, ["values", "-in", "in.ndjson", "-out", "vt.ndjson"], cwd=bd)
+    if p.returncode != 0:
+        raise vlib.Infra("values harness failed: " + p.stderr[-800:])
+    lines = open(os.path.join(bd, "vt.ndjson")).readlines()
+    monitor_lines(run, bd, "TraceValuePipe", lines, {}, ["C09_MissingConfig", "C09_NoPanic"], "missing configuration value",
+                  lambda rec: "%s tag into %s, required=%s: ok=%s panic=%s zero=%s" % (rec.get("tag"), rec.get("ftype"), rec.get("required"), rec.get("ok"), rec.get("panic"), rec.get("zero")))
+    for c in cases:
+        run.count_case(c, True)
+    run.sample(json.loads(lines[0]))
+
+
 def run_c18(run, tier, wd, binary, replay):
     import vp_lib as vl
     run.level = "other"
@@ -208,12 +227,13 @@ def run_c18(run, tier, wd, binary, replay):
         exprs = rng.sample(exprs, 2500)
     cases = [dict(kind="expr", text=e["text"], cfg=e["cfg"], val=e["val"]) for e in exprs]
     cases += vl.validate_cases(rng, 300 if tier == "quick" else 5000)
+    cases += vl.struct_validate_cases(rng, 150 if tier == "quick" else 3000)
     if replay:
         rec = json.load(open(replay))["replay"]["record"]
         if rec["kind"] == "expr":
             cases = [dict(kind="expr", text=rec["text"], cfg=rec["cfg"], val=rec["want"])]
         else:
-            cases = [dict(kind="validate", val=rec["x"], cons=rec["cons"])]
+            cases = [dict(kind=rec["kind"], val=rec["x"], cons=rec["cons"])]
     vlib.write_ndjson(os.path.join(bd, "in.ndjson"), cases)
     p = vlib.run_harness(binary, ["values", "-in", "in.ndjson", "-out", "vt.ndjson"], cwd=bd, timeout=1800)
     if p.returncode != 0:
@@ -221,7 +241,7 @@ def run_c18(run, tier, wd, binary, replay):
     lines = open(os.path.join(bd, "vt.ndjson")).readlines()
     monitor_lines(run, bd, "TraceValuePipe", lines, {}, ["C18_ExprResult", "C18_ValidateIff", "C09_NoPanic"], "real binding",
                   lambda rec: ("expression %r with %s: bound %s, expected %s" % (rec.get("text"), rec.get("cfg"), rec.get("got"), rec.get("want")))
-                  if rec["kind"] == "expr" else ("value %s with constraints %s: ok=%s" % (rec.get("x"), rec.get("cons"), rec.get("ok"))), chunk=5000)
+                  if rec["kind"] == "expr" else ("%s value %s with constraints %s: ok=%s" % (rec["kind"], rec.get("x"), rec.get("cons"), rec.get("ok"))), chunk=5000)
     for c in cases:
         run.count_case(c, c["kind"] == "validate" or "${" in c.get("text", ""))
     run.sample(json.loads(lines[min(7, len(lines) - 1)]))
